@@ -170,7 +170,11 @@ let () =
          let n = n_of_string n in
          Printf.printf "a %s %s\n" (hex_of_bytes (append_uint64 n)) (string_of_n (int_size n))
        | ["LS"; n] -> Printf.printf "ls %s\n" (string_of_n (list_size (n_of_string n)))
-       | "EB" :: r -> let (x, _) = parse_item r in Printf.printf "e %s\n" (hex_of_bytes (encode x))
+       | "EB" :: r ->
+         (* the functional encoder (theorems) and the literal encBuffer transcription must agree *)
+         let (x, _) = parse_item r in
+         let e = encode x and e' = encode_via_buffer x in
+         Printf.printf "e %s%s\n" (hex_of_bytes e) (if e = e' then "" else " ENCBUFFER-MODEL-DIFFERS " ^ hex_of_bytes e')
        | ["MS"; limit; h] ->
          let bs = bytes_of_hex h in
          let k = int_of_string limit in
